@@ -130,7 +130,7 @@ func c15CheckSeen(seen []string, want string, what string) {
 
 func c15NameLen() int {
 	if vfTier() == 1 {
-		return 6
+		return 10
 	}
 	return 4
 }
@@ -224,7 +224,7 @@ func H_C15_extendsImport() {
 	form := ndChoice("form", 2)
 	n := 3
 	if vfTier() == 1 {
-		n = 4
+		n = 8
 	}
 	name := ndName("name", n)
 	for i := 0; i < len(name); i++ {
